@@ -88,8 +88,27 @@ def list_from(engine, st, fr, src, kind="list"):
         st.put("$at", oid, st.get("$at", Val.id(src.t)))
         st.put("$len", oid, seq_len(st, src))
         return out
-    if isinstance(src, Z) and src.ty == "dictkeys":
-        return src
+    if isinstance(src, Z) and isinstance(src.ty, tuple) and src.ty[0] in ("dictkeys", "set", "dict"):
+        # list(d.keys()) / list(s): some enumeration without repetition, covering every member
+        sid = Val.id(src.t)
+        n = st.get("$len", sid)
+        mem = st.get("$mem", sid)
+        ety = src.ty[1] if len(src.ty) > 1 else None
+        out = new_container(engine, st, kind, "anyfuture" if ety == "future" else None)
+        oid = Val.id(out.t)
+        at = fresh("enum_at", ArrIV)
+        pos = fresh("enum_pos", z3.ArraySort(Val, I))
+        i, j = z3.Ints("i!en j!en")
+        x = z3.Const("x!en", Val)
+        st.assume(n >= 0)
+        st.assume(z3.ForAll([i], z3.Implies(z3.And(i >= 0, i < n), z3.And(z3.Select(mem, z3.Select(at, i)),
+                                                                          z3.Select(pos, z3.Select(at, i)) == i))))
+        st.assume(z3.ForAll([x], z3.Implies(z3.Select(mem, x), z3.And(z3.Select(pos, x) >= 0, z3.Select(pos, x) < n,
+                                                                       z3.Select(at, z3.Select(pos, x)) == x))))
+        st.put("$at", oid, at)
+        st.put("$len", oid, n)
+        st.ghost["enum:%d" % engine.concrete_id(out.t)] = {"mem": mem, "pos": pos, "at": at, "n": n}
+        return out
     raise Unsupported("list(%r)" % (src,))
 
 
